@@ -20,11 +20,18 @@ use std::sync::{Arc, Mutex, Once};
 pub struct Rec {
     /// light mode: count only (no snapshots, no event log, no output copy) — used for timing
     pub light: bool,
+    /// element handlers record the unit without touching the attribute list
+    pub blind: bool,
     pub evs: Vec<Ev>,
     pub out: Vec<u8>,
     pub invocations: usize,
     pub fail_at: Option<FailAt>,
     pub sink_calls: usize,
+    /// input bytes handed to write() so far (including the call in progress)
+    pub received: usize,
+    /// (absolute input offset of the "not yet in the sink" mark, sink length) at every move of
+    /// that mark (position hook), when requested
+    pub clean: Vec<(usize, usize)>,
 }
 
 pub type Shared = Arc<Mutex<Rec>>;
@@ -111,9 +118,16 @@ fn streamer(c: &Content) -> Box<dyn lol_html::html_content::StreamingHandler + S
     let ps = pieces(&c.s, c.stream);
     let t = ct(c);
     let fail = c.fail_stream;
+    let bps = if c.utf8_chunks > 0 { byte_pieces(&c.s, c.utf8_chunks) } else { vec![] };
     Box::new(move |sink: &mut StreamingHandlerSink<'_>| -> HandlerResult {
-        for p in &ps {
-            sink.write_str(p, t);
+        if !bps.is_empty() {
+            for p in &bps {
+                sink.write_utf8_chunk(p, t)?;
+            }
+        } else {
+            for p in &ps {
+                sink.write_str(p, t);
+            }
         }
         if fail { Err("stream failed".into()) } else { Ok(()) }
     })
@@ -139,6 +153,19 @@ fn snap_element<H: HandlerTypes>(el: &Element<'_, '_, H>) -> Unit {
                 value_loc: a.value_source_location().map(loc_of),
             })
             .collect(),
+        ns: el.namespace_uri(),
+        self_closing: el.is_self_closing(),
+        can_have_content: el.can_have_content(),
+        removed: el.removed(),
+        loc: loc_of(el.source_location()),
+    }
+}
+
+fn snap_element_blind<H: HandlerTypes>(el: &Element<'_, '_, H>) -> Unit {
+    Unit::Element {
+        name: el.tag_name(),
+        name_pc: el.tag_name_preserve_case(),
+        attrs: vec![],
         ns: el.namespace_uri(),
         self_closing: el.is_self_closing(),
         can_have_content: el.can_have_content(),
@@ -415,7 +442,8 @@ macro_rules! build_settings {
                     let rec2 = rec.clone();
                     let ops = ops.clone();
                     let handler = move |el: &mut Element<'_, '_, $H>| -> HandlerResult {
-                        let (_, inj) = begin(&rec2, reg, if is_light(&rec2) { Unit::DocEnd } else { snap_element(el) }, None);
+                        let (light, blind) = { let g = lock(&rec2); (g.light, g.blind) };
+                        let (_, inj) = begin(&rec2, reg, if light { Unit::DocEnd } else if blind { snap_element_blind(el) } else { snap_element(el) }, None);
                         if inj == Inject::Before {
                             return injected();
                         }
@@ -614,11 +642,13 @@ macro_rules! build_settings {
 pub struct RunOpts {
     pub record_charges: bool,
     pub light: bool,
+    /// record the dispatcher's clean states (position hook)
+    pub record_positions: bool,
 }
 
 impl Default for RunOpts {
     fn default() -> Self {
-        RunOpts { record_charges: false, light: false }
+        RunOpts { record_charges: false, light: false, record_positions: false }
     }
 }
 
@@ -648,7 +678,11 @@ fn drive<O: OutputSink, H: HandlerTypes>(
     };
     let mut written = 0usize;
     for (i, &(a, b)) in writes.iter().enumerate() {
-        lock(rec).evs.push(Ev::Write(b - a));
+        {
+            let mut g = lock(rec);
+            g.evs.push(Ev::Write(b - a));
+            g.received += b - a;
+        }
         let r = guarded((|| rw.write(&sc.doc[a..b])));
         match r {
             Ok(Ok(())) => {
@@ -731,15 +765,28 @@ pub fn run_opts(sc: &Scenario, opts: &RunOpts) -> Result<History, String> {
     install_quiet_panic_hook();
     let rec: Shared = Arc::new(Mutex::new(Rec {
         light: opts.light,
+        blind: sc.blind,
         evs: Vec::with_capacity(64),
         out: Vec::with_capacity(sc.doc.len() + 64),
         invocations: 0,
         fail_at: sc.fail_at,
         sink_calls: 0,
+        received: 0,
+        clean: vec![],
     }));
     let _ = lol_html::verif::take();
     if opts.record_charges {
         lol_html::verif::charges_start();
+    }
+    if opts.record_positions {
+        let r2 = rec.clone();
+        lol_html::verif::set_pos_listener(Some(Box::new(move |unemitted| {
+            let mut r = lock(&r2);
+            // usize::MAX: the mark did not move, output may have been emitted
+            let mark = if unemitted == usize::MAX { r.clean.last().map_or(0, |c| c.0) } else { r.received.saturating_sub(unemitted) };
+            let at = (mark, r.out.len());
+            r.clean.push(at);
+        })));
     }
 
     let d: Result<DriveOut, String> = (|| {
@@ -786,6 +833,9 @@ pub fn run_opts(sc: &Scenario, opts: &RunOpts) -> Result<History, String> {
         }
     })();
     let charges = if opts.record_charges { lol_html::verif::charges_take() } else { vec![] };
+    if opts.record_positions {
+        lol_html::verif::set_pos_listener(None);
+    }
     let probes = lol_html::verif::take();
     let d = d?;
     let mut g = lock(&rec);
@@ -796,10 +846,12 @@ pub fn run_opts(sc: &Scenario, opts: &RunOpts) -> Result<History, String> {
     }
     let evs = std::mem::take(&mut g.evs);
     let out = std::mem::take(&mut g.out);
+    let clean = std::mem::take(&mut g.clean);
     let ticks = evs.len();
     Ok(History {
         evs,
         out,
+        clean,
         in_after_write: d.in_after,
         out_after_write: d.out_after,
         usage_after_write: d.usage_after,
@@ -832,11 +884,14 @@ pub fn run_rewrite_str(sc: &Scenario) -> Result<Result<Result<String, ErrKind>, 
     };
     let rec: Shared = Arc::new(Mutex::new(Rec {
         light: false,
+        blind: sc.blind,
         evs: vec![],
         out: vec![],
         invocations: 0,
         fail_at: sc.fail_at,
         sink_calls: 0,
+        received: 0,
+        clean: vec![],
     }));
     let settings = build_settings!(Settings::new(), sc, &rec, lol_html::LocalHandlerTypes);
     let r = guarded((|| lol_html::rewrite_str(text, settings)));
@@ -869,11 +924,14 @@ pub type LocalRun = StepRun<lol_html::LocalHandlerTypes>;
 fn new_rec(sc: &Scenario) -> Shared {
     Arc::new(Mutex::new(Rec {
         light: false,
+        blind: sc.blind,
         evs: Vec::with_capacity(64),
         out: Vec::with_capacity(sc.doc.len() + 64),
         invocations: 0,
         fail_at: sc.fail_at,
         sink_calls: 0,
+        received: 0,
+        clean: vec![],
     }))
 }
 
@@ -1000,6 +1058,7 @@ impl<H: HandlerTypes + 'static> StepRun<H> {
         let ticks = evs.len();
         History {
             evs,
+            clean: vec![],
             out,
             in_after_write: self.d.in_after.clone(),
             out_after_write: self.d.out_after.clone(),
